@@ -1001,7 +1001,8 @@ impl VmBuilder {
             &vm,
             "std.path.prim",
             crate::vm::primitives::load_path,
-            vec!["std.path.types".into()],
+            // The functions of `std.path.prim` use `std.fs.Metadata` which `std.fs.prim` registers
+            vec!["std.path.types".into(), "std.fs.prim".into()],
         );
 
         add_extern_module_with_deps(
